@@ -7,20 +7,31 @@ import (
 	"fmt"
 	"io"
 	"os"
+
+	"github.com/mikefarah/yq/v4/pkg/verifhook"
 )
 
 func readStream(filename string) (io.Reader, error) {
 	var reader *bufio.Reader
 	if filename == "-" {
 		reader = bufio.NewReader(os.Stdin)
+		if hooked := verifhook.Reader("input", filename, os.Stdin); hooked != nil {
+			reader = bufio.NewReader(hooked)
+		}
 	} else {
 		// ignore CWE-22 gosec issue - that's more targeted for http based apps that run in a public directory,
 		// and ensuring that it's not possible to give a path to a file outside that directory.
+		if err := verifhook.Step("input.open", filename); err != nil {
+			return nil, err
+		}
 		file, err := os.Open(filename) // #nosec
 		if err != nil {
 			return nil, err
 		}
 		reader = bufio.NewReader(file)
+		if hooked := verifhook.Reader("input", filename, file); hooked != nil {
+			reader = bufio.NewReader(hooked)
+		}
 	}
 	return reader, nil
 
@@ -44,6 +55,7 @@ func readDocuments(reader io.Reader, filename string, fileIndex int, decoder Dec
 	var currentIndex uint
 
 	for {
+		verifhook.Yield("decode")
 		candidateNode, errorReading := decoder.Decode()
 
 		if errors.Is(errorReading, io.EOF) {
